@@ -310,6 +310,7 @@ type Interp struct {
 	inInjection bool
 	yieldCount int
 	crashStack []string
+	preemptBudget int
 }
 
 type mutexState struct {
@@ -744,4 +745,32 @@ func (in *Interp) killThreads() {
 		}
 	}
 	in.wg.Wait()
+}
+
+// preemptPoint (mechanism 3 of DESIGN 2.5): before an atomic operation executed by a
+// spawned thread, the scheduler may hand the processor to another runnable spawned thread
+// (bounded by verif.PreemptBudget).  The choice is a decision of the path like any other.
+func (in *Interp) preemptPoint() {
+	if in.preemptBudget <= 0 || in.inInjection {
+		return
+	}
+	me := in.cur
+	if me == nil || me.id == 0 {
+		return
+	}
+	var others []*thread
+	for _, t := range in.threads {
+		if t != me && t.id != 0 && t.state == tRunnable {
+			others = append(others, t)
+		}
+	}
+	if len(others) == 0 {
+		return
+	}
+	k := in.Choose(len(others) + 1)
+	if k == 0 {
+		return
+	}
+	in.preemptBudget--
+	in.switchTo(others[k-1])
 }
